@@ -960,3 +960,94 @@ Section DocPages.
     specialize (G (paginate_ranges css d)). cbn [length] in *. lia.
   Qed.
 End DocPages.
+
+(* ================================================================== well-formed flows *)
+
+Lemma flow_ind' (P : flow -> Prop) :
+  (forall mt mb pt pb bb ba bi page kids, Forall P kids -> P (Blk mt mb pt pb bb ba bi page kids)) ->
+  (forall n lh o w, P (Para n lh o w)) -> (forall h, P (Mono h)) -> forall f, P f.
+Proof.
+  intros HB HP HM. fix IH 1. intros [mt mb pt pb bb ba bi page kids|n lh o w|h]; [|apply HP|apply HM].
+  apply HB. induction kids as [|k r IHr]; constructor; [apply IH|exact IHr].
+Qed.
+
+Lemma add_open_wf o us : (0 <= o_mt o)%Z -> (0 <= o_pt o)%Z -> Forall wf_unit us -> Forall wf_unit (add_open o us).
+Proof.
+  intros H1 H2 H. destruct H as [|u r Hu Hr]; cbn; constructor; auto.
+  destruct Hu as (A & B & C). repeat split; cbn; auto.
+Qed.
+
+Lemma add_close_wf c us : (0 <= c_pb c)%Z -> (0 <= c_mb c)%Z -> Forall wf_unit us -> Forall wf_unit (add_close c us).
+Proof.
+  intros H1 H2 H. induction H as [|u r Hu Hr IH]; cbn; auto.
+  destruct r as [|u' r'].
+  - constructor; auto. destruct Hu as (A & B & C). repeat split; cbn; auto.
+    apply Forall_app. split; auto.
+  - constructor; auto.
+Qed.
+
+Theorem wf_flow_units f : forall anc pg, wf_flow f = true -> Forall wf_unit (lin anc pg f).
+Proof.
+  induction f as [mt mb pt pb bb ba bi page kids IH|n lh o w|h] using flow_ind'; intros anc pg Hw.
+  - cbn [wf_flow] in Hw. rewrite !andb_true_iff, !Z.leb_le in Hw.
+    destruct Hw as (((((Hmt & Hmb) & Hpt) & Hpb) & _) & Hk).
+    cbn [lin]. apply add_open_wf; cbn; auto. apply add_close_wf; cbn; auto.
+    revert Hk. induction IH as [|k r Hkk Hr IHr]; intros Hk; [constructor|].
+    apply andb_true_iff in Hk as [Hk1 Hk2]. apply Forall_app. split; auto.
+  - cbn [wf_flow] in Hw. apply andb_true_iff in Hw as [_ Hlh]. apply Z.leb_le in Hlh.
+    cbn [lin]. apply Forall_forall. intros u Hu. apply in_map_iff in Hu as (k & <- & _).
+    repeat split; cbn; auto.
+  - cbn [wf_flow] in Hw. apply Z.leb_le in Hw. cbn [lin]. constructor; auto. repeat split; cbn; auto.
+Qed.
+
+Corollary wf_flows_units fs : forallb wf_flow fs = true -> Forall wf_unit (lin_flows fs).
+Proof.
+  unfold lin_flows. induction fs as [|f r IH]; cbn; [constructor|].
+  rewrite andb_true_iff. intros [H1 H2]. apply Forall_app. split; auto. apply wf_flow_units; auto.
+Qed.
+
+(* ================================================================== named corollaries *)
+
+Section Named.
+  Variable css : bool.
+  Variable d : doc.
+  Let us := lin_flows (d_flow d).
+  Let n := length us.
+
+  (* geometry_ok: every page of the model has the box its page type's @page cascade gives *)
+  Theorem paginate_geometry_ok :
+    Forall (fun p => pg_geom p = page_box_geometry (d_rules d) (pg_type p)) (paginate css d).
+  Proof.
+    unfold paginate. apply Forall_forall. intros p Hp. apply in_map_iff in Hp as ([pt units] & <- & _).
+    reflexivity.
+  Qed.
+
+  (* avoid_honoured_if_possible / orphans_widows_ok_if_possible: a page of the model ends
+     at a boundary that violates break-*: avoid (resp. orphans / widows) only when no
+     conforming break exists for that page *)
+  Theorem paginate_avoid_honoured_if_possible :
+    Forall (fun p : pstate * nat * nat => let '(st, s, e) := p in
+      e < n -> forced_at css us e = false -> avoid_ok us e = false ->
+      forall b c, is_cap n (forced_at css us) s c -> s < b -> b <= c ->
+        fits_doc css d us st s b = true -> ~ legal_break n (forced_at css us) (allowed_at us) s b)
+      (paginate_ranges css d).
+  Proof.
+    destruct (paginate_satisfies_spec css d) as [_ Hok]. fold us n in Hok.
+    eapply Forall_impl; [|exact Hok]. intros [[st s] e] (_ & _ & _ & H4) He Hf Ha.
+    apply H4. unfold legal_break, allowed_at. rewrite Ha. cbn. intros [H|[H|H]]; try discriminate; try lia.
+    congruence.
+  Qed.
+
+  Theorem paginate_orphans_widows_ok_if_possible :
+    Forall (fun p : pstate * nat * nat => let '(st, s, e) := p in
+      e < n -> forced_at css us e = false -> ow_ok us s e = false ->
+      forall b c, is_cap n (forced_at css us) s c -> s < b -> b <= c ->
+        fits_doc css d us st s b = true -> ~ legal_break n (forced_at css us) (allowed_at us) s b)
+      (paginate_ranges css d).
+  Proof.
+    destruct (paginate_satisfies_spec css d) as [_ Hok]. fold us n in Hok.
+    eapply Forall_impl; [|exact Hok]. intros [[st s] e] (_ & _ & _ & H4) He Hf Ha.
+    apply H4. unfold legal_break, allowed_at. rewrite Ha, andb_false_r. intros [H|[H|H]]; try discriminate; try lia.
+    congruence.
+  Qed.
+End Named.
